@@ -58,7 +58,7 @@ Print Assumptions C09_leaf_failure_unchanged.
 
 Theorem C09_cascade_is_the_specification :
   forall (B H : positive) (depth fuel : nat) d0 doc (p : list (vertex hp)) x tr nl r doc' nl' es,
-    kipath p = true -> (List.length p < fuel)%nat -> fresh doc nl ->
+    kipath p = true -> (List.length p < fuel)%nat -> fresh doc nl (List.length p) ->
     set_match B H depth fuel (SrcDoc d0) doc p x true tr nl = (r, doc', nl', es) ->
     match r with
     | Ok m => cset doc p x nl = (true, doc') /\ tdata m = x
@@ -74,7 +74,7 @@ Print Assumptions C09_value_is_found_afterwards.
 
 Theorem C09_get_after_set :
   forall (B H : positive) (depth fuel : nat) d0 doc (p : list (vertex hp)) x tr tr' nl m doc' nl' es,
-    kipath p = true -> (List.length p < fuel)%nat -> fresh doc nl ->
+    kipath p = true -> (List.length p < fuel)%nat -> fresh doc nl (List.length p) ->
     set_match B H depth fuel (SrcDoc d0) doc p x true tr nl = (Ok m, doc', nl', es) ->
     let r := fst (jget_match B H depth (SrcDoc doc') p true tr') in
     (exists pm, r = Ok (Some pm) /\ tdata pm = x) \/ (exists e, r = Exn e /\ budget_exn e = true).
@@ -93,7 +93,7 @@ Print Assumptions C09_missing_location_only_additions.
 
 Theorem C09_failure_alters_nothing :
   forall (B H : positive) (depth fuel : nat) d0 doc (p : list (vertex hp)) x tr nl e doc' nl' es,
-    kipath p = true -> (List.length p < fuel)%nat -> fresh doc nl ->
+    kipath p = true -> (List.length p < fuel)%nat -> fresh doc nl (List.length p) ->
     set_match B H depth fuel (SrcDoc d0) doc p x true tr nl = (Exn e, doc', nl', es) -> grows doc doc'.
 Proof. exact set_match_failure_grows. Qed.
 Print Assumptions C09_failure_alters_nothing.
@@ -104,11 +104,11 @@ Theorem C09_created_container_single_entry : forall d v v' t x nl d',
 Proof. exact cset_created_single. Qed.
 Print Assumptions C09_created_container_single_entry.
 
-(* non-vacuity: {"a": {"b": 5}, "l": [1, []]} is fresh below 50; l[2][0][1] creates two lists and then fails
+(* non-vacuity: {"a": {"b": 5}, "l": [1, []]} is fresh for the window [50, 54); l[2][0][1] creates two lists and then fails
    (index 1 of a new list can be neither assigned nor appended): the two lists stay, everything else is as before *)
 Example C09_example :
   let d := JDict 1 [("a"%string, JDict 2 [("b"%string, JInt 5)]); ("l"%string, JList 3 [JInt 1; JList 4 []])] in
-  fresh d 50 /\
+  fresh d 50 4 /\
   cset d [VKey "l"%string; VIdx 2; VIdx 0; VIdx 1] (JInt 9) 50 =
     (false, JDict 1 [("a"%string, JDict 2 [("b"%string, JInt 5)]);
                      ("l"%string, JList 3 [JInt 1; JList 4 []; JList 51 [JList 50 []]])]) /\
@@ -116,7 +116,5 @@ Example C09_example :
     (true, JDict 1 [("a"%string, JDict 2 [("b"%string, JInt 5); ("c"%string, JList 50 [JInt 9])]);
                     ("l"%string, JList 3 [JInt 1; JList 4 []])]).
 Proof.
-  split; [|split; reflexivity]. split.
-  - simpl. repeat constructor; simpl; intuition discriminate.
-  - simpl. intros i Hi. repeat (destruct Hi as [<-|Hi]; [repeat constructor|]). contradiction.
+  split; [apply freshb_fresh; reflexivity | split; reflexivity].
 Qed.
